@@ -10,6 +10,9 @@ WHAT IS PROVED HERE (about sqlframe's own code, through the generated tables of 
   * the three-dialect plumbing: statements are rendered input -> execution and written by the execution dialect's
     generator; reported column names are renormalised execution -> output (marked case sensitive first, so the
     renormalisation returns them exactly); symbolic dialect names mean what they say;
+  * a definition and its lower-cased reference reach the statement with the same spelling on every engine (C12_refs_resolve);
+  * round(): with the generated Postgres NUMERIC-cast decision, F.round over a double equals Spark's HALF_UP on every multiple
+    of 1/2 on every engine — under an ASSUMED table of the engines' ROUND primitives (C12_round_ties, C12_cex_roundNoCast);
   * names: for every assignment of normalisation strategies to dialects, every identifier and every pair of sessions,
     the column name the user gets back equals the DuckDB session's name up to letter case and the engine's sanitising
     (`C12_names`) — under the stated assumption on how an engine reports aliases (`engineReports`).
@@ -21,6 +24,7 @@ not reachable; that part is *validated per program* by tools/props/c12.py (sqlgl
 executed on DuckDB), and is labelled validation in the evidence.
 -/
 import SqlframeModel.Lemmas.C12
+import SqlframeModel.Impl.C12Round
 namespace Sqlframe
 open Sqlframe.Gen Sqlframe.C12
 
@@ -149,6 +153,58 @@ theorem C12_names (pair pair' : DialRole × DialRole) (marks marks' : Bool) (str
     exact h1.trans (sanitizeWith_caseEq _ C12_chain_caseless h2.symm)
 
 theorem C12_duck_row : ∃ r ∈ engines, r.engine = "duckdb" ∧ rowDialects r = duckDialects ∧ r.sanitize = false := by decide
+
+/-! ### references keep resolving (why `normalize_string` normalises in the from-dialect first) -/
+
+/-- A column definition spelled `n` (as the user wrote it, e.g. a createDataFrame name in the VALUES alias list) and a
+    reference to it that was lower-cased when the Column object was built reach the statement with the SAME spelling on
+    every session whose input dialect folds all identifiers (Spark: CASE_INSENSITIVE) — whatever the execution dialect's
+    strategy, quoted or not. This is what keeps quoted mixed-case names resolvable on Postgres / Snowflake. -/
+theorem C12_refs_resolve (strat : String → Strategy) (d : Dialects) (n : List Char) (q : Bool)
+    (hin : strat d.input = .caseInsensitive) :
+    stmtIdent strat d ⟨n, q⟩ = stmtIdent strat d ⟨lower n, q⟩ := by
+  have ho : normalizeOrder = [.from_, .to_] := by decide
+  have hp : toSqlPair = (.input, .execution) := by decide
+  unfold stmtIdent normalizeString
+  rw [ho, hp]
+  simp only [List.foldl_cons, List.foldl_nil, Dialects.get]
+  have h1 : normalizeIdent (strat d.input) false ⟨n, q⟩ = normalizeIdent (strat d.input) false ⟨lower n, q⟩ := by
+    rw [hin]; simp [normalizeIdent, lower_lower]
+  rw [h1]
+
+/-- without the from-dialect pass (only the to-dialect one) it fails: on Postgres the quoted definition "Order Id" keeps its
+    spelling while its reference is "order id" -/
+theorem C12_cex_noFromPass :
+    normalizeIdent (strategyOf "postgres") false ⟨"Order Id".toList, true⟩
+      ≠ normalizeIdent (strategyOf "postgres") false ⟨lower "Order Id".toList, true⟩ := by decide
+
+/-! ### a per-engine function decision: round() -/
+
+/-- with the generated decision (the Postgres branch casts to NUMERIC whether or not a scale is given), on every supported
+    engine `F.round(col)` over a double equals PySpark's HALF_UP round on EVERY multiple of 1/2 — in particular on every tie
+    x.5 — and `F.round(col, scale)` is a call the engine has.  Relies on the ASSUMED primitive table `primRound`. -/
+theorem C12_round_ties : ∀ e ∈ supportedEngines, (∀ h : Int, sqlframeRound e h = sparkRound h) ∧ sqlframeRoundScaleValid e = true := by
+  have h1 : roundPgCastNoScale = true := by decide
+  have h2 : roundPgCastWithScale = true := by decide
+  intro e he
+  simp only [supportedEngines, List.mem_cons, List.mem_nil_iff, or_false] at he
+  rcases he with rfl | rfl | rfl | rfl | rfl | rfl | rfl <;>
+    simp [sqlframeRound, sqlframeRoundScaleValid, sparkRound, roundOperand, primRound, primRoundScaleExists, h1, h2]
+
+/-- the decision's other value: without the cast Postgres rounds 0.5, 2.5 and -2.5 to 0, 2 and -2, Spark to 1, 3 and -3;
+    and round(double precision, integer) does not exist there -/
+theorem C12_cex_roundNoCast :
+    primRound "postgres" (roundOperand "postgres" false) 1 ≠ sparkRound 1 ∧
+    primRound "postgres" (roundOperand "postgres" false) 5 ≠ sparkRound 5 ∧
+    primRound "postgres" (roundOperand "postgres" false) (-5) ≠ sparkRound (-5) ∧
+    primRoundScaleExists "postgres" (roundOperand "postgres" false) = false := by decide
+
+-- non-vacuity: ties really are rounded differently by the two rules, and equally off ties
+example : halfAway 5 = 3 ∧ halfEven 5 = 2 ∧ halfAway 3 = 2 ∧ halfEven 3 = 2 ∧ halfAway (-5) = -3 ∧ halfEven (-5) = -2 ∧ halfAway 4 = 2 ∧ halfEven 4 = 2 := by decide
+example : sqlframeRound "postgres" 5 = 3 ∧ sqlframeRound "duckdb" 5 = 3 := by decide
+-- an instance of C12_refs_resolve's hypothesis: the spark input dialect of every session in the table
+example : strategyOf duckDialects.input = .caseInsensitive := by decide
+example : (stmtIdent strategyOf { input := "spark", output := "spark", execution := "postgres" } ⟨"Order Id".toList, true⟩).name = "order id".toList := by decide
 
 /-! ### the property -/
 
